@@ -133,6 +133,21 @@ pub fn build(repo: &Path, root: &Path, with_big: bool) -> Tree {
             dirs.push(name.clone());
         }
         fs::create_dir_all(fx.join(&name).join("_sub")).unwrap();
+        // every SDL schema also exists as the introspection JSON a server for it would return, so
+        // that the JSON front-end sees the same variety of types as the SDL one
+        let mut twins = vec![];
+        for (f, len) in &files {
+            if f.to_lowercase().contains("schema") && f.ends_with(".graphql") && *len < 50_000 {
+                let sdl = fs::read_to_string(fx.join(&name).join(f)).unwrap_or_default();
+                if let Ok(c) = sdl2json::convert(&sdl, "") {
+                    let twin = format!("{}_twin.json", f.trim_end_matches(".graphql"));
+                    let text = serde_json::to_string(&serde_json::json!({"data": {"__schema": c.schema}})).unwrap();
+                    fs::write(fx.join(&name).join(&twin), &text).unwrap();
+                    twins.push((twin, text.len() as u64));
+                }
+            }
+        }
+        let files: Vec<(String, u64)> = files.into_iter().chain(twins).collect();
         for (f, len) in files {
             let is_schema = f.to_lowercase().contains("schema");
             let ops = if is_schema {
